@@ -1358,4 +1358,205 @@ $out := string(d$u)
 @body
 d$u, _ := hex.DecodeString(hex.EncodeToString([]byte($in)))
 $out := string(d$u)
+
+### san guard sanitizer
+@imports vprog/rt
+@body
+$out := rt.Sanitize($in)
+
+### sanbranch guard sanitizer
+@imports vprog/rt
+@body
+var $out string
+if rt.Cond($c) {
+	$out = rt.Sanitize($in)
+} else {
+	$out = $in
+}
+
+### sanignored guard sanitizer
+@imports vprog/rt
+@body
+_ = rt.Sanitize($in)
+$out := $in
+
+### sancopy guard sanitizer
+@imports vprog/rt
+@body
+c$u := $in
+s$u := rt.Sanitize(c$u)
+$out := $in + s$u
+
+### sancallee guard sanitizer
+@imports vprog/rt
+@decls
+func clean$u(s string) string { return rt.Sanitize(s) }
+@body
+$out := clean$u($in)
+
+### sanptr guard sanitizer
+@imports vprog/rt
+@body
+p$u := new(string)
+*p$u = $in
+q$u := rt.Sanitize(*p$u)
+$out := *p$u + q$u
+
+### valif guard validator
+@imports vprog/rt
+@body
+if !rt.Validate($in) {
+	return
+}
+$out := $in
+
+### valifelse guard validator
+@imports vprog/rt
+@body
+var $out string
+if rt.Validate($in) {
+	$out = $in
+} else {
+	return
+}
+
+### valneg guard validator
+@imports vprog/rt
+@body
+if rt.Validate($in) {
+	return
+}
+$out := $in
+
+### valbypass guard validator
+@imports vprog/rt
+@body
+if rt.Cond($c) {
+	if !rt.Validate($in) {
+		return
+	}
+}
+$out := $in
+
+### valonearm guard validator
+@imports vprog/rt
+@body
+var $out string
+if rt.Validate($in) {
+	$out = $in + "v"
+} else {
+	$out = $in + "u"
+}
+
+### valerr guard validator
+@imports vprog/rt
+@body
+if err$u := rt.ValidateErr($in); err$u != nil {
+	return
+}
+$out := $in
+
+### valerrfall guard validator
+@imports vprog/rt
+@body
+if err$u := rt.ValidateErr($in); err$u != nil {
+	rt.Nop()
+}
+$out := $in
+
+### valerrneg guard validator
+@imports vprog/rt
+@body
+if err$u := rt.ValidateErr($in); err$u == nil {
+	return
+}
+$out := $in
+
+### valignored guard validator
+@imports vprog/rt
+@body
+_ = rt.Validate($in)
+$out := $in
+
+### valother guard validator
+@imports vprog/rt
+@body
+if !rt.Validate("other") {
+	return
+}
+$out := $in
+
+### valcallee guard validator
+@imports vprog/rt
+@decls
+func chk$u(s string) bool { return rt.Validate(s) }
+@body
+if !chk$u($in) {
+	return
+}
+$out := $in
+
+### valvar guard validator
+@imports vprog/rt
+@body
+ok$u := rt.Validate($in)
+$out := $in
+if !ok$u {
+	return
+}
+
+### vallate guard validator
+@imports vprog/rt
+@decls
+var late$u string
+@body
+late$u = $in
+if !rt.Validate($in) {
+	return
+}
+$out := late$u
+
+### valloop guard validator
+@imports vprog/rt
+@body
+$out := ""
+for i$u := 0; i$u < 2; i$u++ {
+	if i$u == 0 && !rt.Validate($in) {
+		continue
+	}
+	$out = $in
+}
+
+### valswitch guard validator
+@imports vprog/rt
+@body
+var $out string
+switch {
+case rt.Cond($c):
+	$out = $in
+case rt.Validate($in):
+	$out = $in
+default:
+	return
+}
+
+### valany guard validator
+@imports vprog/rt
+@body
+var a$u any = $in
+if !rt.ValidateAny(a$u) {
+	return
+}
+$out := $in
+
+### valstruct guard validator
+@imports vprog/rt
+@decls
+type V$u struct{ s string }
+@body
+v$u := V$u{s: $in}
+if !rt.Validate(v$u.s) {
+	return
+}
+$out := v$u.s
 `
